@@ -105,6 +105,9 @@ def _models(eng, extra, timeout_ms=1500):
     for bound, vs, gran in ((1024, inputs + stub_vals, 1024), (1024, inputs, 1024), (1024, inputs, 2 ** 24), (2 ** 20, inputs, 1024)):
         if vs is not inputs and not stub_vals:
             continue
+        # the solver scope is closed again BEFORE the candidate is handed out: a suspended generator must not own a
+        # scope (its finaliser once ran s.pop() from the cyclic garbage collector on a later path -> segfault in z3)
+        m_ = None
         s.push()
         try:
             s.set("timeout", timeout_ms)
@@ -115,11 +118,13 @@ def _models(eng, extra, timeout_ms=1500):
                 s.add(v >= -b_, v <= b_)
             r = s.check(*extra)
             if r == z3.sat:
-                eng.last_model_dyadic = True
-                yield eng.extract_model(s.model())
+                m_ = eng.extract_model(s.model())
         finally:
             s.pop()
             s.set("timeout", eng_timeout(eng))
+        if m_ is not None:
+            eng.last_model_dyadic = True
+            yield m_
     r = eng.check(*extra)
     eng.last_model_dyadic = False
     if r == z3.sat:
